@@ -6,7 +6,7 @@ from props._fa_common import TRUSTED, ASSUMPTIONS, TECHNIQUE
 PROP = "C01"
 LEVEL = "proof"
 THEOREMS = {"Properties.C01": ["C01_accepts", "C01_accepts_nfa", "C01_accepts_dfa", "C01_remove_eps",
-                               "C01_determinize", "C01_equiv_certificate"]}
+                               "C01_determinize", "C01_equiv_certificate", "C01_determinize_total"]}
 LEVEL_TEXT = ("Machine-checked Coq theorems (no axioms, all automata, all words): accepts = existence of a run (three class loops), "
               "remove_epsilon_transitions and the subset construction preserve the language and have the advertised shape. "
               "minimize and copy have no universal theorem yet: every automaton pyformlang returns is certified language-equal to its "
